@@ -13,7 +13,8 @@ from vfw.core import Part, Violation, guarded
 LEVEL = 'exploration'
 RULE = (
     'Specific yield: (sd, theta_s, b, psi_s) within the calibration bounds of '
-    'the generated PEST control file (sd in [0.02,2], theta_s in [0.01,1], b '
+    'the generated PEST control file (sd in [0.0005,2] - the bound is 0, where '
+    'the normal distribution degenerates -, theta_s in [0.01,1], b '
     'in [0.01,20], psi_s in [-1,-0.01]) plus the published set. Oracle: an '
     'independent vectorised port of the shipped R script: equality (rel '
     '1e-10) with the 201-layer discretisation at the 201 tabulated levels; '
